@@ -69,10 +69,10 @@ type series struct {
 	tags models.Tags
 }
 
-func (s series) Name() []byte        { return s.name }
-func (s series) Tags() models.Tags   { return s.tags }
-func (s series) Deleted() bool       { return false }
-func (s series) Expr() influxql.Expr { return nil }
+func (s series) Name() []byte            { return s.name }
+func (s series) Tags() models.Tags       { return s.tags }
+func (s series) Deleted() bool           { return false }
+func (s series) Expr() influxql.Expr     { return nil }
 func (itr *seriesIterator) Close() error { return nil }
 func (itr *seriesIterator) Next() (tsdb.SeriesElem, error) {
 	if len(itr.keys) == 0 {
@@ -386,6 +386,7 @@ func caseTerm(c *jcase) string {
 	for i := range c.Steps {
 		st := &c.Steps[i]
 		switch st.Op {
+		case "reopen": // invisible in the model
 		case "snap": // atomic snapshot = begin; commit
 			xs = append(xs, fmt.Sprintf("COp SnapBegin %s", vh.Bool(st.OK)), fmt.Sprintf("COp SnapCommit %s", vh.Bool(st.OK)))
 		case "read":
@@ -439,6 +440,27 @@ func runCase(w *vh.W, c *jcase, mode string) {
 	var failure string
 	for i := range c.Steps {
 		st := &c.Steps[i]
+		if st.Op == "reopen" {
+			// clean restart of the shard engine (Close without flush + Open = WAL replay, TSM files and
+			// tombstones reloaded). It is invisible in the model: the content must not change.
+			// Only generated while no snapshot is pending and in histories without failed snapshots.
+			if e.parked {
+				st.OK = false
+				continue
+			}
+			e.Engine.Close(false)
+			e.idx.Close()
+			e.sfile.Close()
+			ne, err := openEngine(root)
+			if err != nil {
+				failure = fmt.Sprintf("step %d: reopen failed: %v", i, err)
+				e = nil
+				break
+			}
+			e = ne
+			st.OK = true
+			continue
+		}
 		if p := vh.Guard(func() { e.exec(st) }); p != "" {
 			failure = fmt.Sprintf("panic at step %d (%s): %s", i, st.Op, p)
 			break
@@ -447,7 +469,11 @@ func runCase(w *vh.W, c *jcase, mode string) {
 			failure = fmt.Sprintf("step %d (%s) returned error: %s", i, st.Op, st.Err)
 		}
 	}
-	e.close()
+	if e != nil {
+		e.close()
+	} else {
+		os.RemoveAll(root)
+	}
 	sig := ""
 	if deleteDuringSnapshot(c) {
 		sig = "delete-during-pending-snapshot"
@@ -474,9 +500,64 @@ func runCase(w *vh.W, c *jcase, mode string) {
 	}
 }
 
-func gen(w *vh.W, mode string) jcase {
+// genBanded: generation g writes a full band of 3 timestamps [3g,3g+2] of one or two keys and
+// snapshots it, deletes hit exactly one band (so only the file holding that band gets a tombstone and
+// the blocks of different files do not overlap), then contiguous runs are compacted with CompactFull
+// (ppb=3: a 3-point block is a full block and is passed through undecoded) or CompactFast, with
+// restarts in between. This is the shape in which a compaction must apply a tombstone that only a
+// LATER file of the group carries.
+func genBanded(w *vh.W, mode string) jcase {
 	r := w.Rng
 	var c jcase
+	bands := 2 + r.IntN(3)
+	ser := r.IntN(nSeries)
+	fld := r.IntN(nFields)
+	val := int64(1)
+	for g := 0; g < bands; g++ {
+		st := jstep{Op: "write"}
+		for t := int64(3 * g); t < int64(3*g+3); t++ {
+			st.Points = append(st.Points, jpoint{Series: ser, Field: fld, T: t, V: val})
+			val++
+			if r.IntN(3) == 0 {
+				st.Points = append(st.Points, jpoint{Series: 1 - ser, Field: fld, T: t, V: val})
+				val++
+			}
+		}
+		c.Steps = append(c.Steps, st, jstep{Op: "snap"})
+	}
+	full := func(asc bool) jstep {
+		return jstep{Op: "read", Key: ser*nFields + fld, Lo: models.MinNanoTime, Hi: models.MaxNanoTime, Asc: asc}
+	}
+	if mode == "c03" {
+		b := 1 + r.IntN(bands-1) // never the first band: the tombstone is on a later file only
+		lo, hi := int64(3*b), int64(3*b+2)
+		if r.IntN(2) == 0 {
+			lo++
+		}
+		c.Steps = append(c.Steps, jstep{Op: "delete", Series: []int{ser}, Lo: lo, Hi: hi}, full(true))
+		if r.IntN(2) == 0 {
+			c.Steps = append(c.Steps, jstep{Op: "reopen"}, full(false))
+		}
+	}
+	i := r.IntN(bands - 1)
+	c.Steps = append(c.Steps, jstep{Op: "compact", I: i, N: 2 + r.IntN(bands-i-1), Fast: r.IntN(2) == 0}, full(true))
+	if r.IntN(2) == 0 {
+		c.Steps = append(c.Steps, jstep{Op: "reopen"})
+	}
+	c.Steps = append(c.Steps, full(false))
+	for k := 0; k < nSeries*nFields; k++ {
+		c.Steps = append(c.Steps, jstep{Op: "read", Key: k, Lo: models.MinNanoTime, Hi: models.MaxNanoTime, Asc: k%2 == 0})
+	}
+	return c
+}
+
+func gen(w *vh.W, mode string) jcase {
+	r := w.Rng
+	if r.IntN(4) == 0 {
+		return genBanded(w, mode)
+	}
+	var c jcase
+	withReopen := r.IntN(3) == 0 // such histories contain no failed snapshots (see C02's finding F15)
 	n := 6 + r.IntN(18)
 	nfiles := 0
 	parked := false
@@ -530,7 +611,7 @@ func gen(w *vh.W, mode string) jcase {
 				parked = true
 			}
 		case x < 62:
-			if parked {
+			if parked && !withReopen {
 				c.Steps = append(c.Steps, jstep{Op: "snapfail"})
 				parked = false
 				failed = true
@@ -558,6 +639,10 @@ func gen(w *vh.W, mode string) jcase {
 				ss = []int{r.IntN(nSeries)}
 			}
 			c.Steps = append(c.Steps, jstep{Op: "delete", Series: ss, Lo: lo, Hi: hi})
+		case x < 84 && withReopen:
+			if !parked && !failed {
+				c.Steps = append(c.Steps, jstep{Op: "reopen"})
+			}
 		default:
 			c.Steps = append(c.Steps, read())
 		}
@@ -620,6 +705,12 @@ func corpus(mode string) []jcase {
 	if mode == "c03" {
 		cs = append(cs,
 			jcase{Steps: []jstep{wr(jpoint{0, 0, 5, 7}, jpoint{1, 0, 5, 8}), {Op: "snap"}, {Op: "delete", Series: []int{0}, Lo: 0, Hi: 9}, full(0, true), full(2, true), {Op: "snap"}, {Op: "compact", I: 0, N: 1}, full(0, true), full(2, true)}},
+			// two deletes sharing their min time on two series of one file, then a restart (tombstone replay)
+			jcase{Steps: []jstep{wr(jpoint{0, 0, 1, 1}, jpoint{0, 0, 4, 2}, jpoint{0, 0, 7, 3}, jpoint{1, 0, 1, 4}, jpoint{1, 0, 4, 5}, jpoint{1, 0, 7, 6}), {Op: "snap"},
+				{Op: "delete", Series: []int{0}, Lo: 0, Hi: 7}, {Op: "delete", Series: []int{1}, Lo: 0, Hi: 2}, full(0, true), full(2, true), {Op: "reopen"}, full(0, true), full(2, true)}},
+			// a tombstone only on the later file of a compaction group whose earlier file holds a full block
+			jcase{Steps: []jstep{wr(jpoint{0, 0, 0, 1}, jpoint{0, 0, 1, 2}, jpoint{0, 0, 2, 3}), {Op: "snap"}, wr(jpoint{0, 0, 3, 4}, jpoint{0, 0, 4, 5}, jpoint{0, 0, 5, 6}), {Op: "snap"},
+				{Op: "delete", Series: []int{0}, Lo: 4, Hi: 5}, full(0, true), {Op: "compact", I: 0, N: 2}, full(0, true), {Op: "reopen"}, full(0, false)}},
 			// the known finding: delete between Cache.Snapshot() and the snapshot commit
 			jcase{Steps: []jstep{wr(jpoint{0, 0, 5, 7}), {Op: "snapbegin"}, {Op: "delete", Series: []int{0}, Lo: 0, Hi: 10}, full(0, true), {Op: "snapcommit"}, full(0, true)}},
 		)
